@@ -17,7 +17,8 @@ from parglare.exceptions import SRConflicts, RRConflicts, GrammarError
 
 RULE = ("case = (2-4 grammar files with generated rules and declared terminals, import graph chain | diamond | cycle | "
         "generated, aliases, references by qualified names of any depth, overrides of rules and terminals in the root or "
-        "an intermediate file, sub-directories with '../' import paths); the modular grammar (Grammar.from_file) and the "
+        "an intermediate file, sub-directories with '../' import paths, optional repetition sugar on qualified references, optional "
+        "KEYWORD terminal in the root file with glued inputs); the modular grammar (Grammar.from_file) and the "
         "flattened single-file grammar built by an own flattener are compared by LR (when both construct) and GLR on "
         "every token string up to 4 tokens, and grammar.nonterminals/terminals are compared with the expected set of "
         "symbols (each file once); non-trivial = >= 3 files with a diamond or a cycle, or an override; distinct by "
